@@ -16,6 +16,7 @@ import DSV.Model.Fs
 import DSV.Model.Path
 import DSV.Model.Read
 import DSV.Model.Append
+import DSV.Model.History
 /-!
 Line-protocol driver: one request per line on stdin, one reply per line on stdout.
 First token selects the model function.  Imports only `DSV.Model.*` (core Lean), so it links natively.
@@ -943,6 +944,57 @@ def handleAppend (cmd : String) (args : List String) : String :=
       | _, _, _ => "bad-op"
   | _, _ => "bad-op"
 
+/-! #### histories (C09) -/
+def parseNatList (s : String) (sep : String) : Option (List Nat) :=
+  if s = "-" then some [] else (s.splitOn sep).mapM String.toNat?
+
+def parseHistOp (tok : String) : Option DSV.History.Op :=
+  match tok.splitOn ":" with
+  | ["c", now, id, cutoff, nApp, del] =>
+      match now.toNat?, id.toNat?, (if cutoff = "-" then some none else cutoff.toNat?.map some), nApp.toNat?, parseNatList del "+" with
+      | some n, some i, some c, some k, some d => some (.commit n i c k d)
+      | _, _, _, _, _ => none
+  | ["e", c] => c.toNat?.map .expire
+  | ["x", i] => i.toNat?.map .delSnap
+  | ["f", nApp, del, cl] =>
+      match nApp.toNat?, parseNatList del "+" with
+      | some k, some d => if cl = "1" || cl = "0" then some (.failed k d (cl = "1")) else none
+      | _, _ => none
+  | _ => none
+
+def joinWith (sep : String) (l : List String) : String := sep.intercalate l
+
+open DSV.History in
+def showHist (s : St) : String :=
+  let showSnap (sn : DSV.Meta.Snap) : String :=
+    match s.mlistOf.lookup sn.id with
+    | none => s!"{sn.id}@?"
+    | some l =>
+      match manifestsOf s.files l with
+      | none => s!"{sn.id}@l{l}[unreadable]"
+      | some ms =>
+        let body := joinWith "|" (ms.map fun m => s!"m{m.1}(" ++ joinWith "+" (m.2.map fun d => (if s.files.data.contains d then "" else "!") ++ toString d) ++ ")")
+        s!"{sn.id}@l{l}[{body}]"
+  let r := (reach s).getD ⟨[], [], []⟩
+  let ud := (s.files.data.filter fun d => !r.data.contains d).length
+  let um := (s.files.manifests.filter fun m => !(r.manifests.map (·.1)).contains m.1).length
+  let ul := (s.files.mlists.filter fun l => !(r.mlists.map (·.1)).contains l.1).length
+  let cur := match s.md.cur with | .none => "-" | .root => "r" | .id n => toString n
+  s!"cur={cur} snaps={joinWith "," (s.md.snaps.map showSnap)} unref=d:{ud},m:{um},l:{ul}"
+
+open DSV.History in
+/-- `hist.run op…` — ops additionally include `g` (collection with every existing file as candidate) -/
+def handleHist (args : List String) : String :=
+  let rec go (s : St) : List String → Option St
+    | [] => some s
+    | "g" :: rest => go (collect s s.files) rest
+    | t :: rest => match parseHistOp t with
+        | some op => go (step s op) rest
+        | none => none
+  match go init args with
+  | some s => showHist s
+  | none => "bad-op"
+
 def handle (line : String) : String :=
   match splitWs line with
   | [] => "bad-op"
@@ -960,6 +1012,7 @@ def handle (line : String) : String :=
     else if cmd.startsWith "path." then handlePath cmd args
     else if cmd = "rd.outcome" then handleReadOutcome args
     else if cmd.startsWith "ap." then handleAppend cmd args
+    else if cmd = "hist.run" then handleHist args
     else if cmd.startsWith "gc." then handleGc cmd args
     else if cmd = "occ.trace" then handleOcc args
     else if cmd = "create.trace" then handleCreate args
